@@ -26,6 +26,7 @@ import (
 	skywaykeeper "github.com/palomachain/paloma/v2/x/skyway/keeper"
 	skywaytypes "github.com/palomachain/paloma/v2/x/skyway/types"
 	treasurytypes "github.com/palomachain/paloma/v2/x/treasury/types"
+	vtypes "github.com/palomachain/paloma/v2/x/valset/types"
 	"github.com/palomachain/paloma/v2/zzverif/explore"
 	"github.com/palomachain/paloma/v2/zzverif/report"
 	"github.com/palomachain/paloma/v2/zzverif/world"
@@ -145,12 +146,13 @@ type ghost struct {
 	Pool     []int64 // community pool delta per token
 	Skynonce uint64
 	FeesOff  bool
+	Remapped bool // governance bound token 1's denom to another contract while transfers were pending
 	AccsOff  bool // validators have no account on the bridge's chain any more (the published snapshot still lists them)
 }
 
 func (g *ghost) Clone() explore.Ghost {
 	n := &ghost{X: append([]xfer{}, g.X...), Deposits: append([]int64{}, g.Deposits...), Burned: append([]int64{}, g.Burned...),
-		Pool: append([]int64{}, g.Pool...), UserBal: map[string][]int64{}, Skynonce: g.Skynonce, FeesOff: g.FeesOff, AccsOff: g.AccsOff}
+		Pool: append([]int64{}, g.Pool...), UserBal: map[string][]int64{}, Skynonce: g.Skynonce, FeesOff: g.FeesOff, AccsOff: g.AccsOff, Remapped: g.Remapped}
 	for k, v := range g.UserBal {
 		n.UserBal[k] = append([]int64{}, v...)
 	}
@@ -221,7 +223,7 @@ func run(r *report.Run, shard, nshards int, replayFile string) {
 		e.supply0 = append(e.supply0, w.Supply(ctx, d))
 		e.pool0 = append(e.pool0, e.communityPool(ctx, d))
 	}
-	r.Rule = "BFS over Send/Cancel/EndBlk50 (batch build)/EndBlkLate (timeout sweep)/EstimateQuorum/ExecutedQuorum/DepositQuorum/GovTax (bridge tax rate or exemption changed while transfers are pending)/DropFees/RestoreFees/DropAccounts/RestoreAccounts (the validators' accounts on the bridge's chain replaced after the snapshot was published) on the real skyway handlers and end-blocker; every operation is additionally executed once per collaborator call it makes in that state (bank, EVM keeper) with that call failing; a case is distinct by (skyway store, balances, ghost ledger)"
+	r.Rule = "BFS over Send/Cancel/EndBlk50 (batch build)/EndBlkLate (timeout sweep)/EstimateQuorum/ExecutedQuorum/DepositQuorum/GovTax (bridge tax rate or exemption changed while transfers are pending)/GovRemap (the denom bound to another remote contract while transfers are pending)/DropFees/RestoreFees/DropAccounts/RestoreAccounts (the validators' accounts on the bridge's chain replaced after the snapshot was published) on the real skyway handlers and end-blocker; every operation is additionally executed once per collaborator call it makes in that state (bank, EVM keeper) with that call failing; a case is distinct by (skyway store, balances, ghost ledger)"
 	r.Assumptions = []string{
 		"fault-injected variants of message handlers run through keeper.NewMsgServerImpl(faultyKeeper) inside a cache context (ante not re-run); un-faulted variants are really signed txs through ante + router",
 		"quorum operations (estimates, claims) are macros of three validator messages + end-blocker; vote interleavings are C02's subject",
@@ -500,6 +502,9 @@ func (e *env) ops(n *explore.Node) []explore.Op {
 	// Send
 	for _, u := range e.users {
 		for tok := 0; tok < e.ntok; tok++ {
+			if tok == 0 && g.Remapped {
+				continue // new sends of the re-bound denom would open batches for a third contract: outside this alphabet
+			}
 			for _, amt := range e.amounts {
 				u, tok, amt := u, tok, amt
 				add(fmt.Sprintf("Send(%s,t%d,%d)", u.Name, tok+1, amt), func(ctx *sdk.Context, g *ghost, k *skywaykeeper.Keeper) *explore.Fail {
@@ -555,6 +560,15 @@ func (e *env) ops(n *explore.Node) []explore.Op {
 			u, id := u, id
 			add(fmt.Sprintf("Cancel(%s,%d)", u.Name, id), func(ctx *sdk.Context, g *ghost, k *skywaykeeper.Keeper) *explore.Fail {
 				ok, f := userTx(ctx, k, u, &skywaytypes.MsgCancelSendToRemote{TransactionId: id, Metadata: world.Meta(u)})
+				if f == nil && !ok && k == nil {
+					// no injected fault: the sender's cancel of its own transfer that waits in the pool has no
+					// reason to fail ("refunded in full to its sender" must stay reachable)
+					for _, x := range g.X {
+						if x.ID == id && x.Place == "pool" && x.Sender == u.Name {
+							return explore.Failf("cancel-of-pooled-transfer-refused", "%s cannot cancel its own transfer %d (%d+%d of token %d) that waits in the pool: the coins can never be refunded", u.Name, id, x.Amount, x.Tax, x.Tok)
+						}
+					}
+				}
 				if f != nil || !ok {
 					return f
 				}
@@ -635,6 +649,15 @@ func (e *env) ops(n *explore.Node) []explore.Op {
 			if burned != total {
 				return explore.Failf("I3-burn", "attested execution of batch %d burned %d, its transfers total %d", b.BatchNonce, burned, total)
 			}
+			if k == nil {
+				// no injected fault: a batch attested as executed by every validator must be gone (burned)
+				left, _ := w.App.SkywayKeeper.GetOutgoingTxBatches(*ctx)
+				for _, lb := range left {
+					if lb.BatchNonce == b.BatchNonce && lb.TokenContract.GetAddress() == b.TokenContract.GetAddress() {
+						return explore.Failf("executed-batch-still-open", "batch %d was attested as executed by all validators and is still open: its transfers are neither burned nor refundable", b.BatchNonce)
+					}
+				}
+			}
 			return nil
 		}, true)
 	}
@@ -714,6 +737,16 @@ func (e *env) ops(n *explore.Node) []explore.Op {
 				must(w.SetFee(*ctx, v, ref, "1.0"))
 			}
 			g.FeesOff = false
+			return nil
+		}, false)
+	}
+	// governance binds token 1's denom to another remote contract while transfers of it are pending
+	// (pool entries and batches are keyed by the old contract): they must stay refundable / burnable
+	if !g.Remapped {
+		add("GovRemap(t1)", func(ctx *sdk.Context, g *ghost, k *skywaykeeper.Keeper) *explore.Fail {
+			must(w.GovExec(*ctx, &skywaytypes.MsgSetERC20MappingProposal{Authority: w.Gov, Metadata: vtypes.MsgMetadata{Creator: w.Gov, Signers: []string{w.Gov}},
+				Mappings: []skywaytypes.MsgSetERC20MappingProposal_ERC20ToDenomMapping{{ChainReferenceId: ref, Erc20: "0x3333333333333333333333333333333333333333", Denom: e.denoms[0]}}}))
+			g.Remapped = true
 			return nil
 		}, false)
 	}
